@@ -37,10 +37,3 @@ TERM_PARSE = fn(
             RaisesSpec('NotImplementedError', when='not is_blob and term_outcome(term) == 3', iff=True, ensures=[('others_untouched', "fields_unchanged_but(self, 'Term.Constant', 'Term.Term', 'Term.IsSimple', 'Term.IsBlob')")])],
 )
 
-# Equation.GetRightHandSide / RHS : pure rendering (verified in C12)
-for _q in ('sfc_models.equation.Equation.GetRightHandSide', 'sfc_models.equation.Equation.RHS'):
-    fn(_q, args=dict(self=Ref('Equation')), returns=STR,
-       requires=[('inv', 'eq_inv(self)')],
-       ensures=[('never_empty', "result != ''"),
-                ('value', 'V(result) == Den(self)'),
-                ('rendering_is_a_function_of_the_terms', 'result == rhs_text(self)')])
